@@ -1110,6 +1110,20 @@ fn w_c12_flush() {
         assert!(w.is_empty(), "[C12.w.flush] the server waited for input at read {} while {} reply byte(s) were unflushed (stream split after {} bytes)", w[0].0, w[0].1, split);
         cases += 1;
     }
+    // lock-step: every read delivers exactly one command, so the server waits for input after every reply -- also after
+    // replies of 255, 256, 257 and 512 packets (an 8-bit packet counter comes back to where it started)
+    for nrows in [0usize, 1, 251, 252, 253, 508] {
+        let q = format!("rs:1:{}", nrows);
+        let cmds: Vec<(Vec<u8>, u8)> = vec![(c_query(q.as_bytes()), 0), (vec![0x0e], 0), quit()];
+        let mut chunks = vec![frame(&hs, 1).len()];
+        for c in &cmds { chunks.push(c.0.len() + 4); }
+        chunks.push(1);
+        let r = converse(hs.clone(), &cmds, chunks, false, None, None);
+        assert!(r.result.is_ok(), "[C12.w.run] lock-step conversation with a {}-row reply failed: {:?}", nrows, r.result);
+        let w = r.net.0.borrow().waited_unflushed.clone();
+        assert!(w.is_empty(), "[C12.w.flush] after a reply of {} packets the server waited for input at read {} while {} reply byte(s) were unflushed", nrows + 4, w[0].0, w[0].1);
+        cases += 1;
+    }
     println!("VERIF-NATIVE w_c12_flush cases={} nontrivial={}", cases, cases);
 }
 
